@@ -35,6 +35,11 @@ def answer(frames):
     return sorted(out, key=lambda f: json.dumps(f, sort_keys=True))
 
 
+def _third_side(rows):
+    c = Counter(x["mailbox_id"] for x in rows["mailbox_sides"])
+    return any(n >= 3 for n in c.values())
+
+
 class Mon(CountingGhost):
     prop = "C10"
 
@@ -148,7 +153,10 @@ class Mon(CountingGhost):
                                       {"case": case, "resent": list(resend), "uncrashed_answer": ans1, "resumed_answer": ans2,
                                        "rows_diff_uncrashed_vs_resumed": rows_diff(r.after, w2.channel_rows(fresh=True))},
                                       dict(sig, answer_same=(rename_ids(json.dumps(ans1, sort_keys=True), ids)
-                                                             == rename_ids(json.dumps(ans2, sort_keys=True), ids)))))
+                                                             == rename_ids(json.dumps(ans2, sort_keys=True), ids)),
+                                           resumed_crowded=any(a.get("error") == "crowded" for a in ans2)
+                                           and not any(a.get("error") == "crowded" for a in ans1),
+                                           third_side_present=_third_side(w2.channel_rows(fresh=True)))))
             # (3) nobody returns: sweeps complete without internal errors and empty the store
             if not out:
                 rs = w2.step(("dropall",)) + w2.step(("tick", self.E + 3 * self.P + 1.0))
